@@ -70,8 +70,12 @@ TrivialResult(c) == CASE c.op = "int" -> <<>>
 \* region equality of two ring sets read by the even-odd rule: their edges cancel mod 2 on
 \* every atom of the common arrangement
 Tag(X, t) == { [e |-> x.e, id |-> <<t>> \o x.id] : x \in X }
-RegionEqRecs(Z) == LET E == Segs(Z)  V == ArrVerts(E)
-                   IN \A s \in AtomsOf(E, V) : Cardinality({z \in Z : Covers(z.e, s)}) % 2 = 0
+\* (if the edges of the two ring sets meet in non-integral points - only possible when one of
+\*  them violates C04 - the comparison is outside the integer domain: UNDECIDED, printed, not failed)
+RegionEqRecs(Z) == LET E == Segs(Z) IN
+                   IF ~AllIntegral(E) THEN PrintT(<<"UNDECIDED-REGIONEQ">>)
+                   ELSE LET V == ArrVerts(E)
+                        IN \A s \in AtomsOf(E, V) : Cardinality({z \in Z : Covers(z.e, s)}) % 2 = 0
 RegionEq(m1, m2) == RegionEqRecs(Tag(EdgeRecs(m1), 1) \cup Tag(EdgeRecs(m2), 2))
 RegionEq4(m1, m2, m3, m4) == RegionEqRecs(Tag(EdgeRecs(m1), 1) \cup Tag(EdgeRecs(m2), 2)
                                           \cup Tag(EdgeRecs(m3), 3) \cup Tag(EdgeRecs(m4), 4))
@@ -107,7 +111,7 @@ C04_RingsFromInputs(c) ==
 
 \* C01 (and C11 for chained calls): the result, read polygon by polygon, is the named
 \* combination of the base operands on both sides of every atom of their arrangement
-RegionOK(c) == RegionMatches(c.mp, ExprOf(c), [n \in BaseNames(ExprOf(c)) |-> EdgeRecs(val[n])])
+RegionOK(c, extra) == RegionMatches(c.mp, ExprOf(c), [n \in BaseNames(ExprOf(c)) |-> EdgeRecs(val[n])], extra)
 
 \* C02: the rings are grouped into a valid polygon set
 C02_PolygonSetValid(c) ==
@@ -199,10 +203,19 @@ Violated(c) ==
       v12 == IF "C12" \in Laws /\ (~C12_OperandsUntouched(c) \/ ~pair(C12_Deterministic)) THEN {"C12"} ELSE {}
       c04 == C04_RingsFromInputs(c)
       v04 == IF "C04" \in Laws /\ un /\ ok /\ ~c04 THEN {"C04"} ELSE {}
-      \* region laws are only meaningful (and only evaluable in the integer domain) when C04 holds
-      geo == ok /\ un /\ c04
-      v01 == IF "C01" \in Laws /\ geo /\ Depth1(c) /\ ~RegionOK(c) THEN {"C01"} ELSE {}
-      v11 == IF "C11" \in Laws /\ geo /\ ~Depth1(c) /\ ~RegionOK(c) THEN {"C11"} ELSE {}
+      \* Region laws: when C04 holds the result's edges lie on input edges and the arrangement of
+      \* the inputs decides them; otherwise the result's own edges refine the arrangement, provided
+      \* every meeting point is still integral - if not, the law is UNDECIDED for this call (never
+      \* silently passed: the step prints it, the C04 check reports the cause)
+      resE == Segs(EdgeRecs(c.mp))
+      allE == UNION {Segs(EdgeRecs(val[n])) : n \in Bases(c)} \cup resE
+      wantGeo == ok /\ un /\ Laws \cap {"C01", "C11", "C02"} # {}
+      decid == c04 \/ AllIntegral(allE)
+      geo == wantGeo /\ decid
+      extra == IF c04 THEN {} ELSE resE
+      und == IF wantGeo /\ ~decid THEN {"UNDECIDED"} ELSE {}
+      v01 == IF "C01" \in Laws /\ geo /\ Depth1(c) /\ ~RegionOK(c, extra) THEN {"C01"} ELSE {}
+      v11 == IF "C11" \in Laws /\ geo /\ ~Depth1(c) /\ ~RegionOK(c, extra) THEN {"C11"} ELSE {}
       v02 == IF "C02" \in Laws /\ geo /\ ~C02_PolygonSetValid(c) THEN {"C02"} ELSE {}
       v06 == IF "C06" \in Laws /\ ok /\ un /\ ~(C06_Self(c) /\ C06_Empty(c) /\ C06_DisjointBoxes(c) /\ pair(C06_Commutes)) THEN {"C06"} ELSE {}
       v07 == IF "C07" \in Laws /\ ~pair(C07_RepresentationInvariant) THEN {"C07"} ELSE {}
@@ -210,7 +223,7 @@ Violated(c) ==
       v09 == IF "C09" \in Laws /\ ~pair(C09_FarPartLocal) THEN {"C09"} ELSE {}
       v10 == IF "C10" \in Laws /\ ~pair(C10_F32AgreesF64) THEN {"C10"} ELSE {}
       v05 == IF "C05" \in Laws /\ ~C05_Partition(c, lg) THEN {"C05"} ELSE {}
-  IN v03 \cup v12 \cup v04 \cup v01 \cup v11 \cup v02 \cup v06 \cup v07 \cup v08 \cup v09 \cup v10 \cup v05
+  IN und \cup v03 \cup v12 \cup v04 \cup v01 \cup v11 \cup v02 \cup v06 \cup v07 \cup v08 \cup v09 \cup v10 \cup v05
 
 \* ------------------------------------------------------------------- actions
 \* is the generator's claim about the new operand true? (a false claim is a harness error)
